@@ -116,24 +116,34 @@ class Sched:
             self.gates[name] = f
         return f
 
-    def open(self, name, value=None, exc=None):
+    # `settle=False` variants issue the action without running the loop, so that several actions land in the SAME loop
+    # iteration (e.g. a release and a cancellation with nothing in between); call `settle()` afterwards.
+    def open(self, name, value=None, exc=None, settle=True):
         f = self.gate(name)
         if not f.done():
             if exc is not None:
                 f.set_exception(exc)
             else:
                 f.set_result(value)
-        self.loop.settle()
+        if settle:
+            self.loop.settle()
 
-    def spawn(self, name, coro):
+    def spawn(self, name, coro, settle=True):
         t = self.loop.create_task(coro, name=str(name))
         self.tasks[name] = t
-        self.loop.settle()
+        if settle:
+            self.loop.settle()
         return t
 
-    def cancel(self, name):
+    def cancel(self, name, settle=True):
         self.tasks[name].cancel()
-        self.loop.settle()
+        if settle:
+            self.loop.settle()
+
+    def cancel_soon(self, name):
+        """request the cancellation from a callback queued behind everything already scheduled (no settling): a task woken by an
+        earlier callback of the same iteration is then cancelled after its future completed but before it has run"""
+        self.loop.call_soon(self.tasks[name].cancel)
 
     def settle(self):
         self.loop.settle()
